@@ -15,6 +15,7 @@ Output
   * `localDefs`                 for every local variable a compiled condition reads: the statements assigning it
 """
 import ast
+import copy
 import os
 import re
 
@@ -154,9 +155,50 @@ class Compiler:
         if bound is not None or not isinstance(c.target, ast.Name) or len(c.ifs) > 1:
             raise Unsupported("generator shape")
         v = c.target.id
+        # the generator variable used only through ONE attribute path (`len(da.shape) for da in tag.references`):
+        # iterate over that attribute of the items instead - the read `<iter>[].<attr>`
+        uses = set()
+        bare = False
+        skip = set()
+        for part in [g.elt] + list(c.ifs):
+            for n in ast.walk(part):
+                if isinstance(n, ast.Attribute):
+                    pth = self.path_of(n)
+                    if pth and pth.split(".")[0] == v and id(n) not in skip:
+                        uses.add(pth)
+                        for sub in ast.walk(n.value):
+                            skip.add(id(sub))
+                elif isinstance(n, ast.Name) and n.id == v and id(n) not in skip:
+                    bare = True
+        if uses:
+            it = self.path_of(c.iter)
+            if bare or len(uses) != 1 or it is None:
+                raise Unsupported("generator variable used through several paths")
+            attr = next(iter(uses))
+            src = self.read("%s[].%s" % (it, attr.split(".", 1)[1]))
+            sub = _Subst(v, attr)
+            cond = "(some %s)" % self.expr(sub.visit(copy.deepcopy(c.ifs[0])), v) if c.ifs else "none"
+            return "(.anyIn %s %s %s)" % (src, cond, self.expr(sub.visit(copy.deepcopy(g.elt)), v))
         src = self.expr(c.iter, bound)
         cond = "(some %s)" % self.expr(c.ifs[0], v) if c.ifs else "none"
         return "(.anyIn %s %s %s)" % (src, cond, self.expr(g.elt, v))
+
+
+class _Subst(ast.NodeTransformer):
+    """replace the attribute path `<v>.<attr>` by the bare name <v>"""
+
+    def __init__(self, v, path):
+        self.v, self.path = v, path
+
+    def visit_Attribute(self, node):
+        parts = []
+        n = node
+        while isinstance(n, ast.Attribute):
+            parts.append(n.attr)
+            n = n.value
+        if isinstance(n, ast.Name) and ".".join([n.id] + parts[::-1]) == self.path:
+            return ast.copy_location(ast.Name(id=self.v, ctx=ast.Load()), node)
+        return self.generic_visit(node)
 
 
 def sites(tree):
